@@ -12,6 +12,7 @@ for prof in release checked; do
   flag="--release"; [ "$prof" != release ] && flag="--profile $prof"
   ( cd harness && RUSTFLAGS="$GUARD" cargo build -q $flag --offline --target-dir "$B/harness" )
 done
+( cd harness && cargo build -q --release --offline --features driver_only --target-dir "$B/harness-drv" )
 ( cd /repo && RUSTFLAGS="$GUARD" cargo build -q --release --offline --target-dir "$B/engine-rel" )
 ( cd /repo && RUSTFLAGS="$GUARD -C debug-assertions=on -C overflow-checks=off" cargo build -q --release --offline --target-dir "$B/engine-chk" )
 "$B/harness/release/vh" selftest
